@@ -133,5 +133,30 @@ def programs(seed, n, syms=gen.SYMS, tids=None):
         if rank == 2:
             twin(steps, "trace", {}, L, S, "trc")
             twin(steps, "einsum", {"eq": "ab->ba", "lhs": [0, 1], "rhs": [1, 0]}, L, S, "es")
+        # arrays DERIVED from the lazy one own their pending signs: synchronising the source in place afterwards must
+        # not change them, and synchronising / accumulating into a derived array must not change the source
+        steps.append({"op": "copy", "in": [lazy], "out": ["lz"], "args": {}})
+        steps.append({"op": "sync_charges", "in": ["lz"], "out": ["d1"], "args": {}})
+        derived = ["d1"]
+        if rank == 2:
+            # (the factors themselves are not unique - a lazy and a synchronised input may give Q's differing by signs -
+            # so each derived array is compared with a copy of ITSELF taken before the source is touched)
+            steps.append({"op": "qr", "in": ["lz"], "out": ["dq", "dr"], "args": {}})
+            steps.append({"op": "svd", "in": ["lz"], "out": ["du", "dsv", "dvh"], "args": {}})
+            derived += ["dq", "du"]
+        for d in derived:
+            steps.append({"op": "copy", "in": [d], "out": [d + "0"], "args": {}})
+        steps.append({"op": "phase_sync", "in": ["lz"], "out": ["lz"], "args": {"inplace": True}})
+        for d in derived:
+            steps.append(rel("same", "C09.derived_unaffected_by_source_sync", d, d + "0"))
+        steps.append(rel("same", "C09.derived_unaffected_by_source_sync.twin", "d1", "xs"))
+        # the other direction, from a fresh lazy copy
+        steps.append({"op": "copy", "in": [lazy], "out": ["lw"], "args": {}})
+        steps.append({"op": "sync_charges", "in": ["lw"], "out": ["e1"], "args": {}})
+        steps.append({"op": rng.choice(["phase_sync", "conj"]), "in": ["e1"], "out": ["e1"], "args": {"inplace": True}})
+        if rank == 2:
+            steps.append({"op": "qr", "in": ["lw"], "out": ["eq", "er"], "args": {}})
+            steps.append({"op": "iadd", "in": ["eq", "eq"], "out": ["eq"], "args": {}})
+        steps.append(rel("same", "C09.source_unaffected_by_derived_sync", "lw", "xs"))
         progs.append({"tid": tids(), "inputs": inputs, "steps": steps})
     return progs
